@@ -8,7 +8,7 @@
    7. default zone       set_timezone / get_time_offset steps of the operation machine
    8. examples           whole-pipeline runs by vm_compute
    5. literal_*          (at the end) time_body: the token of a literal under a default zone, symbolically
-                         and through the five time regexes (finite); `H:MM:SS pm` refuted *)
+                         and through the five time regexes (finite), incl. `H:MM:SS pm` *)
 From Coq Require Import ZArith Lia Floats.
 From SC.Model Require Import Base Num NumF64 Types Config Case Chrono Regex Rx UiTokens Parser RuleFns Rules Items Format Lexer Api Run64 Corr.
 From SC.Spec Require Import Clock.
@@ -779,12 +779,37 @@ Proof.
   rewrite forallb_forall in T1. exact (T1 m (in_zrange m 60 ltac:(lia))).
 Qed.
 
-(* what the statement's 'H:MM:SS am/pm' runs into: the two regexes with seconds have no meridiem
-   group, so the meridiem is not read: 1:20:30 pm is lexed as 01:20:30 (token ends before " pm") *)
-Theorem meridiem_with_seconds_refuted :
-  literal_tokens DAY1 default_config (s "1:20:30 pm")
-    = Some [(0%N, 7%N, Some (TTime (instant_of DAY1 (wall_of 1 20 30) 0) {| tz_name := s "UTC"; tz_off := 0 |}))] /\
-  option_map fst (run_line default_config (s "1:20:30 pm")) = Some (s "01:20:30 UTC") /\
-  (* and the statement's own exclusion *)
+(* 1-11 am/pm with seconds (H:MM:SS pm, H:MM:SSpm, HH:MM:SS pm, ...): every hour and second, minutes
+   0, 7, 30, 59, five spellings of the meridiem.  (Before /repo 6e1968b the regexes with seconds had
+   no meridiem group and `1:20:30 pm` was read as 01:20:30.) *)
+Lemma literal_hms_ampm_check :
+  forallb (fun h => forallb (fun hs => forallb (fun mer => forallb (fun sep => forallb (fun m => forallb (fun sec =>
+     lit_ok DAY1 default_config (text_hms hs m sec ++ sep ++ fst mer) (wall_of (hour24 h (snd mer)) m sec))
+     (zrange 60)) some_minutes) seps) meridiems) (hour_spellings h)) (map (Z.add 1) (zrange 11)) = true.
+Proof. vm_compute. reflexivity. Qed.
+
+Theorem literal_hms_ampm h hs mer pm sep m sec :
+  1 <= h <= 11 -> In hs (hour_spellings h) -> In (mer, pm) meridiems -> In sep seps ->
+  In m some_minutes -> 0 <= sec < 60 ->
+  literal_tokens DAY1 default_config (text_hms hs m sec ++ sep ++ mer)
+    = whole_line_time DAY1 default_config (text_hms hs m sec ++ sep ++ mer) (wall_of (hour24 h pm) m sec).
+Proof.
+  intros Hh Hhs Hmer Hsep Hm Hs. apply lit_ok_true. pose proof literal_hms_ampm_check as T.
+  rewrite forallb_forall in T.
+  assert (Hin : In h (map (Z.add 1) (zrange 11))).
+  { apply in_map_iff. exists (h - 1). split; [lia | apply in_zrange; lia]. }
+  specialize (T h Hin).
+  rewrite forallb_forall in T. specialize (T _ Hhs).
+  rewrite forallb_forall in T. specialize (T _ Hmer).
+  rewrite forallb_forall in T. specialize (T _ Hsep). cbn [fst snd] in T.
+  rewrite forallb_forall in T. specialize (T _ Hm).
+  rewrite forallb_forall in T. exact (T sec (in_zrange sec 60 ltac:(lia))).
+Qed.
+
+Theorem meridiem_with_seconds_examples :
+  option_map fst (run_line default_config (s "1:20:30 pm")) = Some (s "13:20:30 UTC") /\
+  option_map fst (run_line default_config (s "11:59:59 PM + 1 second")) = Some (s "00:00:00 UTC") /\
+  option_map fst (run_line default_config (s "1:20:30 pm EST to CET")) = Some (s "19:20:30 CET") /\
+  (* the statement's own exclusion *)
   option_map fst (run_line default_config (s "12:30 am")) = Some (s "12:30:00 UTC").
 Proof. vm_compute. repeat split; reflexivity. Qed.
